@@ -772,7 +772,9 @@ def run_property(pid, tier, jobs, level, trusted_base, assumptions, explanation,
     """Run all jobs of a property in parallel, write evidence, print verdict lines, return exit code."""
     t0 = time.time()
     seed = int(os.environ.get("VERIF_SEED", "0") or 0)
-    pdir = os.path.join(BUILD, pid)
+    # scratch directory: unique per run (quick and thorough runs of one property may overlap); VERIF_KEEP=1 keeps it at build/<id>
+    keep = os.environ.get("VERIF_KEEP") == "1"
+    pdir = os.path.join(BUILD, pid) if keep else os.path.join(BUILD, "%s.%s.%d" % (pid, tier, os.getpid()))
     shutil.rmtree(pdir, ignore_errors=True)
     os.makedirs(pdir, exist_ok=True)
     os.makedirs(os.path.join(VERIF, "evidence"), exist_ok=True)
@@ -912,6 +914,8 @@ def run_property(pid, tier, jobs, level, trusted_base, assumptions, explanation,
     print("%s %s: %d jobs, %d/%d obligations discharged (unbounded/exact-domain), %d bounded job(s), "
           "%d violation(s), %d undecided, %.1fs" % (pid, tier, len(jobs), n_dis, n_obl, len(bounded),
                                                     len(violations), len(undecided), time.time() - t0))
+    if not keep and not violations and not undecided:
+        shutil.rmtree(pdir, ignore_errors=True)      # disk space: scratch of a clean run is not kept
     if violations:
         return 1
     if undecided:
